@@ -38,6 +38,7 @@ type hist struct {
 	d       *drive.Direct
 	store   *fsess.Store
 	vs      *vstore.Store
+	sv      storeView // the injected storage, whichever it is (nil: bundled memory storage)
 	clients []*client
 	cur     *script
 	scripts map[string]*script // concurrent requests name their script in X-Script
@@ -73,16 +74,22 @@ func newHist(e *ev.Env, c *ev.Case, cfg cfgT, kinds []string, tag string) *hist 
 		AbsoluteTimeout: cfg.Abs,
 		KeyGenerator: func() string {
 			h.nid++
-			id := fmt.Sprintf("S%03d-%s", h.nid, h.tag)
+			id := styledID(cfg.IDs, h.nid, h.tag)
 			h.w.issue(id)
 			return id
 		},
 	}
 	if cfg.VStore {
-		h.vs = vstore.New()
-		conf.Storage = h.vs
+		if cfg.Retain {
+			rs := newRefStore()
+			conf.Storage, h.sv = rs, rs
+		} else {
+			h.vs = vstore.New()
+			conf.Storage, h.sv = h.vs, h.vs
+		}
 	}
 	mw, store := fsess.NewWithStore(conf)
+	store.RegisterType(HKey{}) // custom key type, registered the documented way
 	h.store = store
 	app := fiber.New()
 	app.Use("/mw", mw)
@@ -323,7 +330,7 @@ func (h *hist) do(rq *request) bool {
 	j.otherName = h.otherName
 	h.otherName = nil
 	j.judgeEmission(em)
-	if !j.stop && h.vs != nil {
+	if !j.stop && h.sv != nil {
 		j.fail(h.checkStore())
 	}
 	if j.usedDead != "" {
@@ -401,7 +408,7 @@ func decodeStored(b []byte) (data map[string]string, abs time.Time, odd string) 
 	}
 	data = map[string]string{}
 	for k, v := range m {
-		ks, ok := k.(string)
+		ks, ok := tokenOf(k)
 		if !ok {
 			if t, ok := v.(time.Time); ok {
 				abs = t
@@ -412,7 +419,7 @@ func decodeStored(b []byte) (data map[string]string, abs time.Time, odd string) 
 		}
 		vs, ok := v.(string)
 		if !ok {
-			odd = "value of " + ks
+			odd = fmt.Sprintf("key %s holds a %T no handler stored", ks, v)
 			continue
 		}
 		data[ks] = vs
@@ -423,7 +430,7 @@ func decodeStored(b []byte) (data map[string]string, abs time.Time, odd string) 
 // checkStore: contents of the injected storage equal the specification.
 func (h *hist) checkStore() *vio {
 	w := h.w
-	live := h.vs.Live()
+	live := h.sv.Live()
 	inLive := map[string]bool{}
 	for _, k := range live {
 		inLive[k] = true
@@ -439,13 +446,13 @@ func (h *hist) checkStore() *vio {
 			return &vio{"stale-id-in-storage|after-" + cause, fmt.Sprintf("storage still holds %q which ended by %s", k, cause)}
 		}
 		if w.idleStatus(ent) == stDead {
-			dl, _ := h.vs.Deadline(k)
+			dl, _ := h.sv.Deadline(k)
 			return &vio{"outlives|idle-timeout|storage-ttl", fmt.Sprintf("storage entry %q lives until %s, idle deadline was %s", k, stamp(dl), stamp(ent.idleDL))}
 		}
-		b, _ := h.vs.Peek(k)
+		b, _ := h.sv.Peek(k)
 		data, _, odd := decodeStored(b)
 		if odd != "" {
-			return &vio{"data-mismatch|storage-content-" + strings.SplitN(odd, " ", 2)[0], fmt.Sprintf("storage entry %q: %s", k, odd)}
+			return &vio{"data-mismatch|storage-content-" + strings.TrimSuffix(strings.SplitN(odd, " ", 2)[0], ":"), fmt.Sprintf("storage entry %q: %s", k, odd)}
 		}
 		if v := w.cmpData(ent.data, data, -2, ent.lineage, "storage", "storage entry "+k); v != nil {
 			// observer -2: any harness value counts as foreign there; re-classify by owner instead
@@ -506,7 +513,6 @@ var sourceNames = map[string][]string{
 var oddDurations = []time.Duration{time.Millisecond, 500 * time.Millisecond, 999 * time.Millisecond, 1500 * time.Millisecond, 2500 * time.Millisecond}
 
 var (
-	keyPool   = []string{"k0", "k1", "k2", "k3"}
 	forgeAlph = gen.AlphaNum + "-_.~!*"
 )
 
@@ -818,6 +824,13 @@ func runGenerated(e *ev.Env, c *ev.Case) {
 	// own stream (c.R stays as it was)
 	xr := gen.Derive(e.Seed, "session-conn", c.ID)
 	cfg.Name = gen.Pick(xr, sourceNames[cfg.Source])
+	if xr.Chance(3, 5) {
+		cfg.IDs = gen.Pick(xr, idStyles)
+	}
+	if cfg.VStore && xr.Chance(1, 3) {
+		cfg.Retain = true // a storage that keeps the slices it is given
+		e.Stat("histories-retaining-storage", 1)
+	}
 	h := newHist(e, c, cfg, genKinds(r), r.StringFrom("0123456789abcdef", 6))
 	defer h.close()
 	if n := xr.PickW(4, 3, 3); n > 0 {
